@@ -265,6 +265,9 @@ Session make(const std::string& kind, long idx)
     else if (kind == "multigame")
     {
         int games = 2 + int(RNG->below(4));
+        gen::Game prev_g;
+        size_t prev_n = 0;
+        bool have_prev = false;
         for (int gi = 0; gi < games; ++gi)
         {
             if (gi || RNG->below(2)) s.send("ucinewgame");
@@ -279,8 +282,21 @@ Session make(const std::string& kind, long idx)
             gen::Policy pol;
             gen::Game g = gen::random_game(*RNG, start, 12 + int(RNG->below(50)), pol, "session");
             size_t step = 1 + RNG->below(6);
-            for (size_t n = 0; n <= g.moves.size(); n += step)
+            // sometimes the "new" game is the previous one taken up again: the first position command after ucinewgame then
+            // textually EXTENDS the last position command of the abandoned game
+            size_t first_n = 0;
+            if (gi > 0 && have_prev && RNG->below(3) == 0 && prev_n + 1 < prev_g.moves.size())
             {
+                g = prev_g;
+                first_n = prev_n + 1 + RNG->below(2);
+            }
+            size_t stop_at = g.moves.size();
+            if (gi + 1 < games && RNG->below(2)) stop_at = g.moves.size() / 2;  // abandon it half-way
+            for (size_t n = first_n; n <= stop_at; n += step)
+            {
+                prev_g = g;
+                prev_n = n;
+                have_prev = true;
                 Board b = play(g, n);
                 if (!b.has_legal()) break;
                 s.send(pos_cmd(g, n));
